@@ -27,6 +27,11 @@ fn check(prop: &str, tier: Tier) {
     match prop {
         "C09" | "C10" | "C11" | "C12" => check_dom(prop, tier),
         "C18" => check_c18(tier),
+        "C13" => {
+            let run = Run::new("C13", tier, "fault_enumeration");
+            let cov = vh::c13::check(&run);
+            run.finish(cov, &["corpus of 5 plans x 3 compression modes + XML + 3 attribute blobs; inputs are < 8 KiB so any single allocation above max(16 MiB, 4096 x input) counts as unrelated to the input size", "cases run in forked workers under RLIMIT_AS = 3 GiB; an abort or a 20 s stall is attributed to the case being executed and reported, never swallowed", "byte-level mutation alphabets as listed in coverage.rule; 'random' inputs are not used"]);
+        }
         "C07" => {
             let run = Run::new("C07", tier, "model_checking");
             let cov = vh::c07::check(&run);
@@ -377,6 +382,7 @@ fn replay(prop: &str, file: &std::path::Path) {
         "C06" => simple_replay("C06", vh::c06::replay(case)),
         "C08" => simple_replay("C08", vh::c08::replay(case)),
         "C07" => simple_replay("C07", vh::c07::replay(case)),
+        "C13" => simple_replay("C13", vh::c13::replay(case)),
         "C17" => {
             let vs = vh::c17::replay(case);
             for (k, w) in &vs {
